@@ -193,6 +193,12 @@ func genStream(r *gen.R, o StreamOpts) *Stream {
 			typ = 1
 			data, _ = json.Marshal(genJSONVal(r))
 			isJSON = true
+			if r.Chance(1, 5) {
+				// a message may hold more than one JSON text (a batch of lines) or trailing white space:
+				// ReadJSON takes the first value; the rest of that message is nobody's business
+				more, _ := json.Marshal(genJSONVal(r))
+				data = append(append(append(data, '\n'), more...), '\n')
+			}
 		}
 		raw := data
 		comp, bfinal := false, false
